@@ -102,6 +102,27 @@ CHECKS = {
         "assumptions": COMMON_ASSUMPTIONS + ["Schedules are those the OS and tokio produce under stress plus seeded delays at hook H4's schedule points; no claim of schedule coverage.",
                                              "Real-time visibility and atomic-visibility clauses are evaluated in wait-confirmation mode only (the statement restricts them to it)."],
     },
+    "C20": {
+        "level": "exploration",
+        "budget": {"quick": 60, "thorough": 900},
+        "min_histories": {"quick": 150, "thorough": 3000},
+        "required_events": ["history_with_yields", "consumer_recreated", "history_with_wire_commits"],
+        "min_events": {"quick": {"consumer_recreated": 150}, "thorough": {"consumer_recreated": 3000}},
+        "rule": ("One history = one server (wait confirmation), one real IggyProducer and 1-2 real IggyConsumers built through IggyClient over the SDK's own TcpClient. Seeded settings: "
+                 "1-3 partitions; producer batch size {none,1,2,3,10,1000}, send interval {none,1ms,3ms}, partitioning {default, balanced, partition id, key}, 4-13 calls drawn from "
+                 "send / send_one / send_with_partitioning(partition|key) / send_to(other stream and/or topic), optional client-side encryption; consumer single (one partition) or group (1-2 members), "
+                 "strategy {next, offset(0), first, last}, batch size {1,2,3,5,10,100}, commit mode {disabled+manual, polling, all, each, every n-th, interval, interval-or-polling, interval-or-each}, "
+                 "2-5 phases in which a member consumes a seeded number of messages and is then (2/3) dropped and re-created with the same identity on the same or a fresh client. "
+                 "A tap on the transport's request/response boundary records every fetch (offsets returned) and offset commit; the driver logs every yielded message into the same sequence; "
+                 "stored offsets are read from the server at quiescent points. Oracles: every produced message is stored exactly once in the addressed stream/topic/partition (same key => same partition, "
+                 "call order kept), yields are in offset order without gaps or repeats within an incarnation and equal the log's content, no commit beyond the last fetched offset and (consumption modes) beyond the last "
+                 "yielded message, a re-created next-strategy consumer starts at stored offset + 1, every message of the consumer's partitions is yielded (exactly once without re-creation). "
+                 "evaluations = histories; non-trivial = at least one message yielded; distinct_nontrivial = distinct (settings class, number of re-creations) pairs."),
+        "assumptions": COMMON_ASSUMPTIONS + ["Completeness ('every message is yielded') is a bounded-progress reading: a consumer that stays idle for 350 ms with messages left and no fault is reported as never yielding them.",
+                                             "first/last strategies are judged on safety only (order, no repeats, content, commit bounds); with fetch-time commit modes, messages fetched but not yet yielded when the consumer is dropped may be skipped after re-creation (the statement bounds those commits by 'fetched').",
+                                             "Two-member groups: cross-member exactly-once and the resume clause are not asserted across rebalancing (buffered messages of a reassigned partition may legitimately be seen twice).",
+                                             "AutoCommitAfter modes (consume_messages extension) are not driven."],
+    },
     "C13": {
         "level": "exploration",
         "budget": {"quick": 40, "thorough": 600},
@@ -208,6 +229,9 @@ MANIFEST_TEXT = {
     "C12": {"level_text": "Exploration: thousands of short concurrent producer/consumer histories with recorded call/return instants, checked offline against the final log: no loss/duplication, contiguous batches in producer order, every poll a contiguous run agreeing with the final log, short results end on batch boundaries, acknowledged sends visible to later polls (wait mode).",
             "design_ref": "DESIGN.md §4 C12", "level_note": "Trusted base: the offline checker; hook H4 schedule points with a seeded policy. Schedules are sampled, not enumerated.",
             "technique": "runtime monitoring: client-boundary history + final-log (version order) checker under stress and injected delays"},
+    "C20": {"level_text": "Exploration: the real IggyProducer/IggyConsumer (over the SDK's TcpClient) against the real server across seeded producer/consumer settings and drop/re-create points; a transport tap records fetches and commits, the driver records yields, stored offsets are read at quiescence; offline oracles for delivery to the addressed stream/topic/partition, in-order exactly-once yields, commit bounds and resume-after-commit.",
+            "design_ref": "DESIGN.md §4 C20", "level_note": "Trusted base: the event log (tap + driver) and the final logs read with a raw client; bounded-progress reading of completeness (350 ms idle).",
+            "technique": "runtime monitoring: client-boundary event log (fetch/commit/yield) checked against the final partition logs and stored offsets"},
     "C13": {"level_text": "Exploration: structure-aware generation of every command value, encoded by the SDK and decoded by the server's own decoder (equality + validation on both sides), journal and on-disk encodings round-tripped, TCP-vs-HTTP differential reads of boundary-valued entities and messages against what was sent, and hostile malformed-frame sessions next to a model-checked healthy connection.",
             "design_ref": "DESIGN.md §4 C13", "level_note": "Trusted base: the value generators (they decide which values count as well-formed: those the SDK's own validate() accepts) and derived PartialEq of the command types; hook H6 (re-export of the server's command decoder).",
             "technique": "runtime monitoring: round-trip and differential oracles over generated values + client-boundary observation under malformed input"},
@@ -219,7 +243,4 @@ MANIFEST_TEXT = {
             "technique": "runtime monitoring: credential reference model + file-content scan"},
 }
 
-NOT_APPLICABLE = [
-    {"property_id": p, "reason": "check under construction in this framework (not yet claimed)"}
-    for p in ["C20"]
-]
+NOT_APPLICABLE = []
